@@ -309,7 +309,7 @@ def gen_request(r, idx, nonce, feats, opts):
         else:
             framing = 'cl'
             hb.add(r.pick(['Content-Length', 'content-length']), str(len(body)))
-    if framing != 'none' and r.chance(0.1):
+    if framing != 'none' and r.chance(opts.get('p_expect', 0.1)):
         # the client announces it would wait for a 100 (Continue) but, as it may, sends the body anyway
         hb.add('Expect', r.pick(['100-continue', '100-Continue']))
         feats.add('expect')
@@ -347,6 +347,10 @@ def gen_response(r, idx, nonce, req_truth, feats, opts, last):
         nobody = True
     else:
         status, reason = r.pick(STATUSES)
+    if opts.get('expect_4xx') and not head and any(h[0].lower() == 'expect' for h in req_truth['headers']) and r.chance(0.7):
+        # a final 4xx answer to a request that announced Expect: 100-continue (and sent its body anyway)
+        status, reason = r.pick([s for s in STATUSES if 400 <= s[0] <= 499])
+        nobody = False
     if r.chance(0.1):
         reason = r.text(VALUE_CHARS, 1, 6) + ' ' + r.text(VALUE_CHARS, 1, 6)
     hb = HeaderBlock(r, feats)
